@@ -4,6 +4,8 @@
 //	oneshot seq                      calls executed one after the other
 //	oneshot concurrent <gomaxprocs>  all calls released together by a barrier, each on its own goroutine,
 //	                                 as the very first library calls of the process
+//	oneshot concurrent <gomaxprocs> <group>  the calls are released in consecutive groups of <group> calls, one
+//	                                 group after the other (first calls of one size class at a time)
 //
 // stdin: JSON array of enc.EncSpec. stdout: JSON {"fingerprints": [...], "goroutines_before": n, "goroutines_after": n}.
 package main
@@ -64,24 +66,33 @@ func main() {
 			}
 		}
 		out.GoroutinesBefore = runtime.NumGoroutine()
-		start := make(chan struct{})
-		var wg sync.WaitGroup
-		for i := range specs {
-			wg.Add(1)
-			go func(i int) {
-				defer wg.Done()
-				<-start
-				out.Fingerprints[i] = enc.Fingerprint(enc.Encode(specs[i]))
-			}(i)
+		group := len(specs)
+		if len(os.Args) > 3 {
+			if n, err := strconv.Atoi(os.Args[3]); err == nil && n > 0 {
+				group = n
+			}
 		}
-		close(start)
-		done := make(chan struct{})
-		go func() { wg.Wait(); close(done) }()
-		select {
-		case <-done:
-		case <-time.After(120 * time.Second):
-			fmt.Fprintln(os.Stderr, "DEADLOCK-WATCHDOG: concurrent calls did not return within 120s")
-			os.Exit(3)
+		for lo := 0; lo < len(specs); lo += group {
+			hi := min(lo+group, len(specs))
+			start := make(chan struct{})
+			var wg sync.WaitGroup
+			for i := lo; i < hi; i++ {
+				wg.Add(1)
+				go func(i int) {
+					defer wg.Done()
+					<-start
+					out.Fingerprints[i] = enc.Fingerprint(enc.Encode(specs[i]))
+				}(i)
+			}
+			close(start)
+			done := make(chan struct{})
+			go func() { wg.Wait(); close(done) }()
+			select {
+			case <-done:
+			case <-time.After(120 * time.Second):
+				fmt.Fprintln(os.Stderr, "DEADLOCK-WATCHDOG: concurrent calls did not return within 120s")
+				os.Exit(3)
+			}
 		}
 	default:
 		os.Exit(2)
